@@ -16,13 +16,14 @@ package sorted_set
 
 import (
 	"errors"
+	"math"
 	"slices"
 	"strconv"
 	"strings"
 )
 
-func extractKeysWeightsAggregateWithScores(cmd []string) ([]string, []int, string, bool, error) {
-	var weights []int
+func extractKeysWeightsAggregateWithScores(cmd []string) ([]string, []float64, string, bool, error) {
+	var weights []float64
 	weightsIndex := slices.IndexFunc(cmd, func(s string) bool {
 		return strings.EqualFold(s, "weights")
 	})
@@ -31,9 +32,13 @@ func extractKeysWeightsAggregateWithScores(cmd []string) ([]string, []int, strin
 			if slices.Contains([]string{"aggregate", "withscores"}, strings.ToLower(cmd[i])) {
 				break
 			}
-			w, err := strconv.Atoi(cmd[i])
+			// Weights are doubles, like the scores they multiply
+			w, err := strconv.ParseFloat(cmd[i], 64)
 			if err != nil {
-				return []string{}, []int{}, "", false, err
+				return []string{}, []float64{}, "", false, err
+			}
+			if math.IsNaN(w) {
+				return []string{}, []float64{}, "", false, errors.New("weight must be a valid double")
 			}
 			weights = append(weights, w)
 		}
@@ -46,7 +51,7 @@ func extractKeysWeightsAggregateWithScores(cmd []string) ([]string, []int, strin
 	if aggregateIndex != -1 {
 		if aggregateIndex == len(cmd)-1 ||
 			!slices.Contains([]string{"sum", "min", "max"}, strings.ToLower(cmd[aggregateIndex+1])) {
-			return []string{}, []int{}, "", false, errors.New("aggregate must be SUM, MIN, or MAX")
+			return []string{}, []float64{}, "", false, errors.New("aggregate must be SUM, MIN, or MAX")
 		}
 		aggregate = strings.ToLower(cmd[aggregateIndex+1])
 	}
@@ -82,7 +87,7 @@ func extractKeysWeightsAggregateWithScores(cmd []string) ([]string, []int, strin
 	}
 
 	if weightsIndex != -1 && (len(keys) != len(weights)) {
-		return []string{}, []int{}, "", false, errors.New("number of weights should match number of keys")
+		return []string{}, []float64{}, "", false, errors.New("number of weights should match number of keys")
 	} else if weightsIndex == -1 {
 		for i := 0; i < len(keys); i++ {
 			weights = append(weights, 1)
